@@ -219,6 +219,13 @@ func (g *goLit) lit(prefix string, t types.Type, model map[string]*big.Int, from
 		if v, ok := model[prefix+".nil"]; ok && v.Sign() != 0 {
 			return "nil", true
 		}
+		// cyclic data types (a file pointing back to its file set): the model names finitely many objects;
+		// beyond a fixed nesting depth, and where the model says nothing about the pointer, the literal ends
+		// in nil (the replay then reports what the real code does on that input, as for every other input)
+		depth := strings.Count(prefix, ".") + strings.Count(prefix, "[")
+		if _, known := model[prefix+".nil"]; depth > 8 || (!known && depth > 3) {
+			return "nil", true
+		}
 		if _, ok := u.Elem().Underlying().(*types.Struct); ok {
 			s, ok := g.lit(prefix, u.Elem(), model, fromPkg)
 			return "&" + s, ok
